@@ -690,6 +690,9 @@ def _invert(term, vars_):
     return None
 
 
+ENGINE_REF = [None]
+
+
 def _quantify_facts(st_before, st_after, vars_, guard):
     """facts produced under binders mention the bound constants: generalise them"""
     new = st_after.facts[len(st_before.facts):]
@@ -697,10 +700,22 @@ def _quantify_facts(st_before, st_after, vars_, guard):
     ids = {v.get_id() for v in vars_}
     for f in new:
         if _mentions(f, ids):
-            out.append(z3.ForAll(vars_, z3.Implies(guard, f)))
+            q = z3.ForAll(vars_, z3.Implies(guard, f))
+            if ENGINE_REF[0] is not None and _is_typing_fact(f):
+                ENGINE_REF[0].droppable_facts[q.get_id()] = q
+            out.append(q)
         else:
             out.append(f)
     return st_before.with_facts(out)
+
+
+_TYPING_DECLS = {"is", "inj_set", "inj_list", "inj_dict", "unb_set", "unb_list_len", "unb_list_arr", "unb_dict_dom", "unb_dict_map", "box_kind", "cls_of", "oid", "bid", "Select", "ALIVE0", "=", "and", "or", "not", "=>", ">=", "<=", "Int"}
+
+
+def _is_typing_fact(f):
+    """a well-typedness fact produced by unboxing (testers, box round trips, class membership, aliveness)"""
+    txt = f.sexpr()
+    return ("(_ is " in txt or "inj_" in txt or "cls_of" in txt or "ALIVE0" in txt or "box_kind" in txt) and "Exists" not in txt and "exists" not in txt and "any_order" not in txt and "sorted_by" not in txt and "filter_" not in txt
 
 
 def _mentions(f, ids):
@@ -810,17 +825,24 @@ def _comp_result(engine, n, st, kind, plan, vars_, guard, cond, elts, st_e):
         if z3.is_true(z3.simplify(cond)):
             yield st, sv_list(plan.n, z3.Lambda([i], boxed[0]), ety)
             return
-        # filtered list: skolem index maps
-        m = S.fresh("flen", S.Int)
-        arr = S.fresh("farr", S.SeqS)
-        src = z3.Function(S.fresh_name("fsrc"), S.Int, S.Int)
-        inv = z3.Function(S.fresh_name("finv"), S.Int, S.Int)
+        # filtered list: length / index maps are FUNCTIONS of (source length, the condition as an index->Bool array), so
+        # that evaluating the same comprehension twice (code and specification) gives the same terms
+        cond_arr = z3.Lambda([i], cond)
+        elt_arr = z3.Lambda([i], boxed[0])
+        CA = z3.ArraySort(S.Int, S.Bool)
+        f_len = z3.Function("filter_len", S.Int, CA, S.Int)
+        f_src = z3.Function("filter_src", S.Int, CA, S.Int, S.Int)
+        f_inv = z3.Function("filter_inv", S.Int, CA, S.Int, S.Int)
+        m = f_len(plan.n, cond_arr)
+        src = lambda jj: f_src(plan.n, cond_arr, jj)
+        inv = lambda ii: f_inv(plan.n, cond_arr, ii)
         j, k2 = S.fresh("j", S.Int), S.fresh("k", S.Int)
+        arr = z3.Lambda([j], elt_arr[src(j)])
         at = lambda t, idx: z3.substitute(t, (i, idx))
         facts = [
             m >= 0,
             m <= z3.If(plan.n >= 0, plan.n, 0),
-            z3.ForAll([j], z3.Implies(And(0 <= j, j < m), And(0 <= src(j), src(j) < plan.n, at(cond, src(j)), arr[j] == at(boxed[0], src(j)), inv(src(j)) == j))),
+            z3.ForAll([j], z3.Implies(And(0 <= j, j < m), And(0 <= src(j), src(j) < plan.n, cond_arr[src(j)], inv(src(j)) == j))),
             z3.ForAll([j, k2], z3.Implies(And(0 <= j, j < k2, k2 < m), src(j) < src(k2))),
             z3.ForAll([i], z3.Implies(And(0 <= i, i < plan.n, cond), And(0 <= inv(i), inv(i) < m, src(inv(i)) == i))),
         ]
@@ -912,7 +934,31 @@ def genexp_quant(engine, st, g, is_any):
             yield back(st_out), sv_bool(q)
 
 
+def _quant_static_spec(engine, n, gen, st, items, is_any, back):
+    """specification mode: any/all over a fixed list is a disjunction/conjunction of merged truth values (no forking)"""
+    from .spec import _bool_of
+
+    terms = []
+    cur = st
+    for it in items:
+        bound = list(engine.assign_to(gen.target, it, cur))
+        if len(bound) != 1 or isinstance(bound[0][1], Raised):
+            raise OutsideSubset("generator target binding forks")
+        stb = bound[0][0]
+        c = z3.BoolVal(True)
+        for cnd in gen.ifs:
+            b, stb = _bool_of(engine, cnd, stb)
+            c = And(c, b)
+        v, stb = _bool_of(engine, n.elt, stb.assume(c))
+        cur = cur.with_facts(stb.facts[len(cur.facts):])
+        terms.append(And(c, v) if is_any else z3.Implies(c, v))
+    yield back(cur), sv_bool(Or(*terms) if is_any else And(*terms))
+
+
 def _quant_static(engine, n, gen, st, items, idx, is_any, back):
+    if engine.spec_ctx and idx == 0:
+        yield from _quant_static_spec(engine, n, gen, st, items, is_any, back)
+        return
     if idx == len(items):
         yield back(st), sv_bool(not is_any)
         return
